@@ -1,27 +1,61 @@
 package c09kv
 
 import (
-	"context"
+	"bytes"
 	"fmt"
+	"math/rand"
+	"sort"
 	"testing"
 
 	"github.com/nspcc-dev/neo-go/pkg/core/storage"
+	"github.com/nspcc-dev/neo-go/pkg/core/storage/dbconfig"
 )
 
 func TestProbe(t *testing.T) {
-	ms := storage.NewMemoryStore()
-	lower := storage.NewMemCachedStore(ms)
-	lower.Put([]byte{0x70, 0xff}, []byte{1})
-	lower.Put([]byte{0x70, 0x01}, []byte{9})
-	lower.Persist()
-	top := storage.NewMemCachedStore(lower)
-	top.Put([]byte{0x70, 0x70, 0xff}, []byte{2})
-	for kv := range top.SeekAsync(context.Background(), storage.SeekRange{Prefix: []byte{0x70}}, true) {
-		fmt.Printf("cut: %x=%x\n", kv.Key, kv.Value)
+	s, err := storage.NewLevelDBStore(dbconfig.LevelDBOptions{DataDirectoryPath: t.TempDir()})
+	if err != nil {
+		t.Fatal(err)
 	}
-	top.Seek(storage.SeekRange{Prefix: []byte{0x70}}, func(k, v []byte) bool { fmt.Printf("nocut: %x=%x\n", k, v); return true })
-	// empty value
-	top.Put([]byte{0x70, 0x05}, []byte{})
-	v, err := top.Get([]byte{0x70, 0x05})
-	fmt.Printf("empty: %v %v nil=%v\n", v, err, v == nil)
+	defer s.Close()
+	r := rand.New(rand.NewSource(1))
+	al := []byte{0, 0x70, 0xff}
+	bad := 0
+	for round := 0; round < 400 && bad < 5; round++ {
+		model := map[string][]byte{}
+		for i := 0; i < 6; i++ {
+			k := []byte{0x70}
+			for j := r.Intn(3); j > 0; j-- {
+				k = append(k, al[r.Intn(3)])
+			}
+			v := []byte{byte(round), byte(i)}
+			if r.Intn(4) == 0 {
+				v = nil
+				delete(model, string(k))
+			} else {
+				model[string(k)] = v
+			}
+			s.PutChangeSet(nil, map[string][]byte{string(k): v})
+			// ranged check
+			p := []byte{0x70}
+			for j := r.Intn(3); j > 0; j-- {
+				p = append(p, al[r.Intn(3)])
+			}
+			var exp []string
+			for mk := range model {
+				if bytes.HasPrefix([]byte(mk), p) {
+					exp = append(exp, mk)
+				}
+			}
+			sort.Strings(exp)
+			var got []string
+			s.Seek(storage.SeekRange{Prefix: p}, func(k, v []byte) bool { got = append(got, string(k)); return true })
+			if fmt.Sprintf("%x", exp) != fmt.Sprintf("%x", got) {
+				fmt.Printf("round %d step %d prefix %x: exp %x got %x\n", round, i, p, exp, got)
+				bad++
+			}
+		}
+		if err := s.SeekGC(storage.SeekRange{}, func(k, v []byte) (bool, bool) { return false, true }); err != nil {
+			t.Fatal(err)
+		}
+	}
 }
